@@ -14,6 +14,10 @@ func init() {
 		}
 		e.C.DeclareFun("big_of", []Sort{BV(64)}, "Obj")
 		e.C.DeclareFun("big_cmp", []Sort{"Obj", "Obj"}, BV(64))
+		// nil operands panic: the surviving path has non-nil ones
+		e.C.DeclareFun("obj_nil", []Sort{"Obj"}, SBool)
+		st.assume("(not (obj_nil " + x.T + "))")
+		st.assume("(not (obj_nil " + y.T + "))")
 		r := mkBV(64, fmt.Sprintf("(big_cmp %s %s)", x.T, y.T), true)
 		ax, okx := bigOfArg(x.T)
 		ay, oky := bigOfArg(y.T)
@@ -74,4 +78,54 @@ func containsBound(t string) bool {
 		}
 	}
 	return false
+}
+
+func init() {
+	gethTypes := "github.com/ethereum/go-ethereum/core/types"
+	reg("math/big::(*Int).SetString", "(z, ok): ok <==> big_num_ok(s, base); z == big_parse(s, base) (ASSUMED: z is not used when ok is false, where Go returns nil)", func(e *Engine, st *State, fr *Frame, a []Val, fn *ssa.Function, c *ssa.CallCommon) ([]Val, []*State) {
+		e.C.DeclareFun("big_num_ok", []Sort{SStr, BV(64)}, SBool)
+		e.C.DeclareFun("big_parse", []Sort{SStr, BV(64)}, "Obj")
+		s, b := a[1].(*Term), a[2].(*Term)
+		ok := fmt.Sprintf("(big_num_ok %s %s)", s.T, b.T)
+		// the pointer returned on failure is nil in Go; the code in reach never uses it when ok is false, so it is not
+		// modelled as nil (a use would go unnoticed: recorded as an assumption of this extern)
+		e.C.DeclareFun("obj_nil", []Sort{"Obj"}, SBool)
+		st.assume(fmt.Sprintf("(=> %s (not (obj_nil (big_parse %s %s))))", ok, s.T, b.T))
+		return []Val{&PtrV{Opaque: mk("Obj", fmt.Sprintf("(big_parse %s %s)", s.T, b.T))}, mkBool(ok)}, nil
+	})
+	reg(gethTypes+"::BytesToBloom", "bloom_of(b): the 256-byte bloom filter (opaque)", func(e *Engine, st *State, fr *Frame, a []Val, fn *ssa.Function, c *ssa.CallCommon) ([]Val, []*State) {
+		e.C.DeclareFun("bloom_of", []Sort{SStr}, "Obj")
+		o := mk("Obj", "(bloom_of "+bstrOf(e.toBytesTerm(st, a[0]).T)+")")
+		o.GoT = fn.Signature.Results().At(0).Type()
+		return []Val{o}, nil
+	})
+	reg(gethTypes+"::EncodeNonce", "nonce8(n): the 8-byte big-endian nonce", func(e *Engine, st *State, fr *Frame, a []Val, fn *ssa.Function, c *ssa.CallCommon) ([]Val, []*State) {
+		e.C.DeclareFun("nonce8", []Sort{BV(64)}, SStr)
+		t := "(nonce8 " + a[0].(*Term).T + ")"
+		st.assume("(= (slen " + t + ") #x0000000000000008)")
+		return []Val{&Term{S: "Arr", T: t}}, nil
+	})
+	reg("math/big::(*Int).Uint64", "big_u64(x): the low 64 bits (uninterpreted); big_u64(big_of(v)) == v", func(e *Engine, st *State, fr *Frame, a []Val, fn *ssa.Function, c *ssa.CallCommon) ([]Val, []*State) {
+		x := opaqueOf(a[0])
+		if x == nil {
+			if p, ok := a[0].(*PtrV); ok && p.Nil {
+				panic(&NilDeref{"(*big.Int).Uint64 on nil"})
+			}
+			unsupported("big.Int.Uint64 on %s", valString(a[0]))
+		}
+		e.C.DeclareFun("big_u64", []Sort{"Obj"}, BV(64))
+		// a nil receiver panics: the surviving path has a non-nil one
+		e.C.DeclareFun("obj_nil", []Sort{"Obj"}, SBool)
+		st.assume("(not (obj_nil " + x.T + "))")
+		if arg, ok := bigOfArg(x.T); ok {
+			return []Val{mkBV(64, arg, false)}, nil
+		}
+		return []Val{mkBV(64, "(big_u64 "+x.T+")", false)}, nil
+	})
+}
+
+func init() {
+	reg("github.com/cosmos/gogoproto/proto::CompactTextString", "pure: the text form of a message (an unconstrained string; used in error texts only)", func(e *Engine, st *State, fr *Frame, a []Val, fn *ssa.Function, c *ssa.CallCommon) ([]Val, []*State) {
+		return []Val{mk(SStr, e.C.Fresh("prototext", SStr))}, nil
+	})
 }
